@@ -18,12 +18,6 @@ pub fn __clone_or_else<T: Clone>(a: &Option<T>, b: &Option<T>) -> (r: Option<T>)
     ensures r == (if *a is Some { *a } else { *b })
 { a.clone().or_else(|| b.clone()) }
 
-// R14: Extend<T> for Vec<T> appends the items of the argument in order
-#[verifier::external_body]
-pub fn __vec_extend<T>(v: &mut Vec<T>, it: Vec<T>)
-    ensures final(v)@ == old(v)@ + it@
-{ v.extend(it) }
-
 // R7: FromIterator<(K,V)> for BTreeMap inserts in iteration order, so for a key present in both
 // operands of `a.into_iter().chain(b)` the value from `b` (the later one) wins
 #[verifier::external_body]
